@@ -46,10 +46,10 @@ class TiedEmb(nn.Module):
 
 
 class EmbNet(nn.Module):
-    def __init__(self, V, d, pad, o, freq=False, ln_bias=True):
+    def __init__(self, V, d, pad, o, freq=False, ln_bias=True, ln_eps=1e-5):
         super().__init__()
         self.emb = nn.Embedding(V, d, padding_idx=pad, scale_grad_by_freq=freq)
-        self.ln = nn.LayerNorm(d, bias=ln_bias)
+        self.ln = nn.LayerNorm(d, bias=ln_bias, eps=ln_eps)
         self.out = nn.Linear(d, o)
 
     def forward(self, x):
@@ -114,11 +114,12 @@ def build(c, g):
     elif t in ('conv1', 'conv2', 'conv3'):
         nd = int(t[-1])
         conv = {1: nn.Conv1d, 2: nn.Conv2d, 3: nn.Conv3d}[nd](a['cin'], a['cout'], a['k'], stride=a['stride'], padding=a['pad'], dilation=a['dil'], groups=a['groups'], bias=a['bias'], padding_mode=a.get('pmode', 'zeros'))
-        norm = {'gn': nn.GroupNorm(a['gn_groups'], a['cout']), 'in': {1: nn.InstanceNorm1d, 2: nn.InstanceNorm2d, 3: nn.InstanceNorm3d}[nd](a['cout'], affine=True), 'none': nn.Identity()}[a['norm']]
+        eps = a.get('eps', 1e-5)
+        norm = {'gn': nn.GroupNorm(a['gn_groups'], a['cout'], eps=eps), 'in': {1: nn.InstanceNorm1d, 2: nn.InstanceNorm2d, 3: nn.InstanceNorm3d}[nd](a['cout'], affine=True, eps=eps), 'none': nn.Identity()}[a['norm']]
         m = nn.Sequential(conv, norm, nn.Tanh(), nn.AdaptiveAvgPool1d(1) if nd == 1 else (nn.AdaptiveAvgPool2d(1) if nd == 2 else nn.AdaptiveAvgPool3d(1)), nn.Flatten(), nn.Linear(a['cout'], a['o']))
         shape = lambda B: (B, a['cin']) + tuple([a['size']] * nd)
     elif t == 'emb':
-        m = EmbNet(a['V'], a['d'], a['pad'], a['o'], a.get('freq', False), a.get('ln_bias', True))
+        m = EmbNet(a['V'], a['d'], a['pad'], a['o'], a.get('freq', False), a.get('ln_bias', True), a.get('eps', 1e-5))
         shape = None
     elif t == 'bag':
         m = BagNet(a['V'], a['d'], a['o'], a['mode'], a.get('pad'))
